@@ -266,6 +266,7 @@ MUST_FIRE += [
     ("m93", ["C16"], ["K6"], on_seed("R7-c", rep1(S + "find_local_clifford_layer.py", "        if from_first_pair ^ from_second_pair == 0:", "        if from_first_pair | from_second_pair == 0:")), "helper-based search (R7-c) whose validity predicate accepts a selection from both pairs"),
     ("m94", ["C16"], ["K6", "K9"], on_seed("R7-c", rep1(S + "find_local_clifford_layer.py", "    for coefficients in itertools.product([0, 1], repeat=basis.shape[0]):", "    for coefficients in list(itertools.product([0, 1], repeat=basis.shape[0]))[:-1]:")), "helper-based search (R7-c) whose span generator leaves out the sum of all kernel rows"),
     ("m96", ["C16"], ["K9"], on_seed("R7-c", rep1(S + "find_local_clifford_layer.py", "    for coefficients in itertools.product([0, 1], repeat=basis.shape[0]):\n", "    for coefficients in itertools.product([0, 1], repeat=basis.shape[0]):\n        if len(coefficients) > 1 and all(coefficients):\n            continue\n")), "helper-based search (R7-c) whose span generator skips the sum of ALL kernel rows when there are several"),
+    ("m97", ["C08"], ["G6"], rep1(S + "mub_circuits.py", "    assert_connectivity_is_supported(num_qubits, connectivity)\n    return circuit_lookup.mub_circuit_lookup(num_qubits, connectivity).circuits", "    assert_connectivity_is_supported(connectivity, num_qubits)\n    return circuit_lookup.mub_circuit_lookup(num_qubits, connectivity).circuits"), "support gate asked with its arguments swapped: every valid request is refused"),
     ("m95", ["C19"], ["K12"], rep1(S + "graph.py", "    def compress(self) -> int:", "    def compress(self) -> int:\n        if getattr(self, \"_id\", None) is not None:\n            return self._id\n        self._id = self._compress()\n        return self._id\n\n    def _compress(self) -> int:"), "graph id remembered by the object and never invalidated"),
     ("m72", ["C13"], ["A3"], rep1(S + "circuit_lookup.py", "result.circuits = [circuit.copy() for circuit in self.circuits]", "result.circuits = list(self.circuits)"), "fresh list of the cached circuits"),
 ]
